@@ -235,6 +235,16 @@ class WorkerRun:
             await self.enqueue_job(j)
 
     async def enqueue_job(self, j: dict) -> None:
+        if j.get("raw") is not None:
+            # message put on the broker directly with the given parameters (e.g. a recurring message that is due now)
+            from memrun import mk_params
+            from repid.data._key import RoutingKey
+            key = RoutingKey(topic=j.get("name", "act"), queue=j.get("queue", "default"), priority=5, id_=j["id"])
+            raw = dict(j["raw"])
+            if raw.get("result_id"):
+                raw["result"] = (raw.pop("result_id"), 86400 * S)
+            await self.broker.enqueue(key, '{"x":1}', mk_params(raw))
+            return
         payload_kind = j.get("payload", "ok")
         args: Any = {"x": j.get("x", 1)}
         job = Job(j.get("name", "act"), queue=j.get("queue", "default"), id_=j["id"], retries=j.get("retries", 0),
@@ -280,6 +290,7 @@ class WorkerRun:
                 me.ev("runner_created")
         rw._Runner = SpyRunner
         loop = asyncio.get_running_loop()
+        self.cb0 = loop.cb_index
         prev_hook = loop.on_callback
         loop.on_callback = self._on_callback
         try:
